@@ -250,6 +250,136 @@ fn check(case: &Case, ctx: &mut Ctx) {
     ctx.nontrivial_if(mutable_diverged && chunk_missing_somewhere);
 }
 
+
+// ------------------------------------------------------------------------------------------------
+// forced fetch: the rest of the replication pipeline behind the fetcher's "do I need this?" filter
+// ------------------------------------------------------------------------------------------------
+
+#[derive(Clone, Debug, Serialize, Deserialize)]
+pub struct ForcedCase {
+    pub a: NodeContent,
+    pub b: NodeContent,
+    /// which node fetches the other's copy of everything, in this order (false: a<-b, true: b<-a)
+    pub fetches: Vec<bool>,
+    pub sched: Vec<u16>,
+}
+
+fn forced_strategy() -> BoxedStrategy<ForcedCase> {
+    (content_strategy(), content_strategy(), proptest::collection::vec(any::<bool>(), 2..6), proptest::collection::vec(any::<u16>(), 0..40))
+        .prop_map(|(a, b, fetches, sched)| ForcedCase { a, b, fetches, sched })
+        .boxed()
+}
+
+/// Both nodes are told (as the fetcher would tell them through KeysToFetchForReplication) to fetch the
+/// neighbour's copy of every record the neighbour holds. After both directions have happened, the two
+/// stores must hold the same merged register / transaction set and the highest scratchpad, and
+/// byte-identical chunks.
+fn check_forced(case: &ForcedCase, ctx: &mut Ctx) {
+    let mut cl = Cluster::new(&[310, 311], None);
+    let ops = reg_ops();
+    let base = fix::register_base(OWNER, META, Some(vec![]));
+    let reg_key = fix::register_key(OWNER, META);
+    let tx_key = fix::transaction_key(OWNER + 2);
+    let pad_key = fix::scratchpad_key(OWNER + 1);
+    let chunks: Vec<(RecordKey, Vec<u8>)> = (0..4u64).map(|i| { let r = fix::chunk_record(&fix::chunk(700 + i, 30 + i as usize)); (r.key.clone(), r.value) }).collect();
+    for (i, c) in [&case.a, &case.b].iter().enumerate() {
+        for (j, (k, v)) in chunks.iter().enumerate() {
+            if c.chunks & (1 << j) != 0 {
+                cl.seed_record(i, fix::record(k.clone(), v.clone()));
+            }
+        }
+        if let Some(bits) = c.reg {
+            let chosen: Vec<RegisterOp> = (0..3).filter(|b| bits & (1 << b) != 0).map(|b| ops[b].clone()).collect();
+            cl.seed_record(i, fix::register_record(reg_key.clone(), &fix::signed_register(&base, OWNER, chosen)));
+        }
+        if c.txs != 0 {
+            let list: Vec<Transaction> = (0..4).filter(|b| c.txs & (1 << b) != 0).map(|b| fix::transaction(OWNER + 2, b as u64, true)).collect();
+            cl.seed_record(i, fix::transactions_record(tx_key.clone(), &list));
+        }
+        if c.pad != 0 {
+            cl.seed_record(i, fix::scratchpad_record(&pad_of(c.pad)));
+        }
+    }
+    let mut dirs = case.fetches.clone();
+    // make sure both directions happen, the second one last so that everything has been exchanged
+    dirs.push(false);
+    dirs.push(true);
+    dirs.push(false);
+    let mut si = 0usize;
+    for d in dirs {
+        let (to, from) = if d { (1usize, 0usize) } else { (0usize, 1usize) };
+        let holder = cl.nodes[from].peer;
+        let keys: Vec<(libp2p::PeerId, RecordKey)> = cl.local_list(from).keys().map(|a| (holder, a.to_record_key())).collect();
+        if keys.is_empty() {
+            continue;
+        }
+        cl.pending.push(Action::Event(to, ant_networking::NetworkEvent::KeysToFetchForReplication(keys)));
+        let sched = case.sched.clone();
+        let s = &mut si;
+        cl.settle_with(|pending| {
+            let c = sched.get(*s).copied().unwrap_or(0);
+            *s += 1;
+            pick_idx(c, pending.len())
+        });
+        if cl.inconclusive {
+            ctx.label("inconclusive_timeout");
+            return;
+        }
+    }
+    let (sa, sb) = (cl.snapshot(0), cl.snapshot(1));
+    let chunk_union = case.a.chunks | case.b.chunks;
+    let reg_union = match (case.a.reg, case.b.reg) { (None, None) => None, (x, y) => Some(x.unwrap_or(0) | y.unwrap_or(0)) };
+    let tx_union = case.a.txs | case.b.txs;
+    let pad_max = case.a.pad.max(case.b.pad);
+    for (n, s) in [(0, &sa), (1, &sb)] {
+        for (j, (k, v)) in chunks.iter().enumerate() {
+            if chunk_union & (1 << j) != 0 && s.get(&k.to_vec()) != Some(v) {
+                ctx.fail("fetched_chunk_not_stored_byte_identically", format!("node {n} chunk {j}"));
+            }
+        }
+        if let Some(want) = reg_union {
+            match s.get(&reg_key.to_vec()) {
+                None => ctx.fail("fetched_register_not_stored", format!("node {n}")),
+                Some(v) => {
+                    let r: SignedRegister = try_deserialize_record(&fix::record(reg_key.clone(), v.clone())).expect("register decodes");
+                    let have: u8 = (0..3).filter(|b| r.ops().contains(&ops[*b])).fold(0, |a, b| a | (1 << b));
+                    if have != want {
+                        ctx.fail("fetched_register_version_not_merged", format!("node {n} holds ops {have:03b} after fetching the neighbour's copy, union is {want:03b} (initial {:?} / {:?})", case.a.reg, case.b.reg));
+                    }
+                }
+            }
+        }
+        if tx_union != 0 {
+            match s.get(&tx_key.to_vec()) {
+                None => ctx.fail("fetched_transactions_not_stored", format!("node {n}")),
+                Some(v) => {
+                    let t: Vec<Transaction> = try_deserialize_record(&fix::record(tx_key.clone(), v.clone())).expect("transactions decode");
+                    let have: u8 = (0..4).filter(|b| t.contains(&fix::transaction(OWNER + 2, *b as u64, true))).fold(0, |a, b| a | (1 << b));
+                    if have != tx_union {
+                        ctx.fail("fetched_transaction_set_not_merged", format!("node {n} holds {have:04b}, union {tx_union:04b}"));
+                    }
+                }
+            }
+        }
+        if pad_max != 0 {
+            match s.get(&pad_key.to_vec()) {
+                None => ctx.fail("fetched_scratchpad_not_stored", format!("node {n}")),
+                Some(v) => {
+                    let p: Scratchpad = try_deserialize_record(&fix::record(pad_key.clone(), v.clone())).expect("scratchpad decodes");
+                    if p.count() != pad_max as u64 {
+                        ctx.fail("fetched_higher_scratchpad_not_applied", format!("node {n} holds counter {}, neighbour had {pad_max}", p.count()));
+                    }
+                }
+            }
+        }
+    }
+    let diverged = (case.a.reg.is_some() && case.b.reg.is_some() && case.a.reg != case.b.reg) || (case.a.txs != 0 && case.b.txs != 0 && case.a.txs != case.b.txs) || (case.a.pad != 0 && case.b.pad != 0 && case.a.pad != case.b.pad);
+    let same_size_diverged = case.a.reg.zip(case.b.reg).map(|(x, y)| x != y && x.count_ones() == y.count_ones()).unwrap_or(false);
+    ctx.label_if(diverged, "mutable_record_diverging");
+    ctx.label_if(same_size_diverged, "registers_diverging_with_equal_op_count");
+    ctx.nontrivial_if(diverged);
+}
+
 pub fn run(cfg: RunCfg) {
     let mut rep = Report::new(cfg, "exploration");
     rep.rule = "C09: 2-3 real nodes (each other's closest peers, spare capacity, unrestricted range) with generated initial contents (4 chunks, a register with op subsets, a transaction set, a scratchpad with counters; missing / diverging), 2-4 rounds of interval replication on every node, every message delivered in a generated order; the harness is the transport.".into();
@@ -262,6 +392,11 @@ pub fn run(cfg: RunCfg) {
         rep, "cluster", (1_200, 40_000), 16,
         "non-trivial: >=1 mutable record diverging between two nodes and >=1 immutable record missing on one; distinct by whole case",
         case_strategy, check
+    );
+    vh_core::section!(
+        rep, "forced_fetch", (800, 30_000), 16,
+        "two nodes with generated (diverging) contents are told to fetch each other's copies (the event the fetcher emits), in a generated order and message schedule; non-trivial: a mutable record diverges",
+        forced_strategy, check_forced
     );
     rep.finish();
 }
